@@ -7,7 +7,9 @@
      and `char::is_alphanumeric` are the parameters `alpha`, `alnum`
      (`to_digit(10)` is exact: ASCII '0'..'9' only);
    * chrono: `strftime_ok fmt` = "StrftimeItems::new(fmt) yields no Item::Error",
-     `time_str fmt zone` = the rendering of now() in that zone;
+     `time_str fmt zone` = the rendering of now() in that zone, or None when
+     chrono's Display impl returns fmt::Error for that format (then
+     `write!(w, "{}", ..)` panics);
    * runtime values (pid, thread ids, thread name, MDC map, build profile) are
      fields of `env`;
    * the width writers (MaxWidthWriter / LeftAlignWriter / RightAlignWriter)
@@ -513,7 +515,7 @@ Definition apply_params (p : params) (l : list item) : list item :=
 
 Section Encode.
   Variable strftime_ok : str -> bool.
-  Variable time_str : str -> tz -> str.
+  Variable time_str : str -> tz -> option str.
   Variable e : env.
 
   Definition q3 : str := (LIT "???").
@@ -522,8 +524,11 @@ Section Encode.
   Definition enc_leaf (k : leaf) : list item :=
     match k with
     | KTime fmt z =>
-      (* write!(w, "{}", now.format(fmt)) panics when an item is invalid *)
-      if strftime_ok fmt then chars (time_str fmt z) else [Boom]
+      (* write!(w, "{}", now.format(fmt)) panics when an item is invalid or
+         cannot be formatted *)
+      if strftime_ok fmt
+      then match time_str fmt z with Some t => chars t | None => [Boom] end
+      else [Boom]
     | KLevel => chars (level_str (e_level e))
     | KMessage => chars (e_msg e)
     | KModule => chars (opt_or (e_module e) q3)
